@@ -1846,6 +1846,7 @@ func (l *lexer) lexRawString() error {
 STRING:
 	for {
 		if p == len(l.src) {
+			l.line, l.column = lin, col
 			return l.errorf("string not terminated")
 		}
 		switch l.src[p] {
@@ -1861,6 +1862,7 @@ STRING:
 				l.src = l.src[p:]
 				return l.errorf("invalid UTF-8 encoding")
 			} else if r == BOM {
+				l.src = l.src[p:]
 				return l.errorf(bomErrorMsg)
 			}
 			p += s
